@@ -104,9 +104,9 @@ func TestCheck(t *testing.T) {
 	S := func(op string, st ...string) kit.Step { return kit.Step{Op: op, Called: st} }
 	sc := am.Schema{"A": {}, "B": {Auto: true, Require: am.S{"A"}}, "C": {}}
 	ds := []*sk.Driver{
-		mk("add|add", b(2, 3), sc, [][]kit.Step{{S("add", "A")}, {S("add", "C")}}, false),
-		mk("add,remove|set", b(1, 2), sc, [][]kit.Step{{S("add", "A"), S("remove", "A")}, {S("set", "C")}}, false),
-		mk("handler-nested|add", b(1, 2), sc, [][]kit.Step{{S("add", "A")}, {S("canadd", "C"), S("add", "B")}}, true),
+		mk("add|add", b(3, 4), sc, [][]kit.Step{{S("add", "A")}, {S("add", "C")}}, false),
+		mk("add,remove|set", b(2, 3), sc, [][]kit.Step{{S("add", "A"), S("remove", "A")}, {S("set", "C")}}, false),
+		mk("handler-nested|add", b(2, 3), sc, [][]kit.Step{{S("add", "A")}, {S("canadd", "C"), S("add", "B")}}, true),
 	}
 	if kit.ReplayPath() != "" {
 		var rp sk.Replay
